@@ -636,14 +636,17 @@ impl Datamodel for RFsmExpressionDatamodel {
                         }
                     }
                     _ => {
+                        // W3C: error.execution is placed in the internal queue and the rest of the block is skipped.
                         self.log("Resulting value is not a supported collection.");
                         self.internal_error_execution();
+                        return false;
                     }
                 }
                 true
             }
             Err(e) => {
                 self.log(&e.to_string());
+                self.internal_error_execution();
                 false
             }
         }
